@@ -23,8 +23,7 @@ NA = {
     "C13": "client and server processes over a pipe, directory walks and multi-client histories: not encodable",
 }
 
-PENDING = {k: "check not built yet in this revision (planned: see DESIGN.md §4)" for k in
-           ("C01", "C05", "C16", "C18", "C20")}
+PENDING = {}
 
 CHECKS = [
     dict(pid="C17", level="proof",
@@ -32,6 +31,16 @@ CHECKS = [
          ref="DESIGN.md §4 C17",
          note="Trusted: rustc's MIR dump, the mirsmt encoder (validated each run in concrete mode against the native build), the solvers, and two meta-arguments (invariant induction; additive accumulator loop => exact sum mod 2^W). Windows longer than 65536 bytes and roll on an empty window are outside the claim.",
          technique="SMT over MIR (symbolic execution of rustc MIR, integer encoding with explicit wrap); inductive invariant step; loop acceleration"),
+    dict(pid="C01", level="model_checking",
+         text="Signature::generate, SignatureTable::{from_signature,has_weak_match,find_match} and the whole scan loop of CopiaSync::delta with Delta::push_* are executed symbolically from the compiler's MIR on a basis and a source of symbolic bytes (one instance per concrete (basis length, source length, block size) triple); SMT shows for every content: the result is Ok, the header fields are those of the source, op lengths sum to the source size, every copy is block-aligned inside the basis, adjacent ops are merged, and interpreting the ops against the basis yields the source. Weak-hash collisions are covered (the digest is an arbitrary function of the window); the real patch() is decided separately (C05).",
+         ref="DESIGN.md §4 C01",
+         note="Bounded: quick up to 6/6 bytes, block sizes 1-4; thorough up to 10/10, block sizes 1-5. Leaves replaced by contracts: rolling checksums (contract decided by C17), BLAKE3 as an ideal collision-free hash. std models (Vec, HashMap as math map, iterator adaptors, in-memory reader) are trusted and validated each run in concrete mode against the native build. NOT covered: AsyncCopiaSync unless the evidence lists it, sync_files, the CLI chain through bincode files, > 64 KiB inputs / the rayon path, I/O errors.",
+         technique="SMT over MIR (symbolic execution of the real pipeline with state merging; bounded unrolling with unwinding assertions; contract summaries); native replay"),
+    dict(pid="C16", level="model_checking",
+         text="Two solver-decided links. (1) At full width (windows up to 65536 bytes, all byte values) the signature-side and scan-side rolling checksums both equal the definition, re-asked from C17 under this id. (2) On the MIR-executed pipeline (same instances as C01) the delta's literal byte count is <= that of a textbook greedy scan encoded from the property text on the same symbolic basis/source, and an identical file costs fewer literal bytes than one block.",
+         ref="DESIGN.md §4 C16",
+         note="The product `greedy control structure x 64 KiB blocks` is composed by argument, not decided by one query. Same bounds, contracts and trusted base as C01 and C17.",
+         technique="SMT over MIR (bounded pipeline vs reference greedy scan) + full-width inductive checksum obligations"),
     dict(pid="C19", level="model_checking",
          text="glob_match's real loop (from MIR, unrolled with an unwinding assertion) is shown equal to the recursive wildcard definition for every pattern/text up to the length bound over {a,b,*,?,.,/}; needs_transfer is decided at full 64-bit width; build_plan (from MIR, with BTreeMap/Vec/sort modelled over an ordered path universe and is_excluded as an arbitrary predicate) is shown equal to the set definition of transfer/skipped/delete for every presence/metadata/flag assignment. The solver covers all inputs inside the bound at once, which unit tests sample.",
          ref="DESIGN.md §4 C19",
@@ -47,6 +56,21 @@ CHECKS = [
          ref="DESIGN.md §4 C14",
          note="ASSUMED, not decided: that after a successful run the destination metadata equals the source's (mtime round trip through SystemTime / touch / find is kernel+coreutils behaviour). Bounds and trusted base as C19.",
          technique="SMT over MIR (bounded); planner-level obligations"),
+    dict(pid="C18", level="proof", engine="kani",
+         text="reconcile_path and Fingerprint::same (byte-identical copy of reconcile.rs) are model-checked by Kani/CBMC over ALL triples of optional fingerprints with fully symbolic 32-byte digests and entry types: equal to the documented table written independently, mirror-symmetric, no delete without a base, and a function of presence/equality bits only. The domain is complete (no quotient, no sampling), so this is proof-level for the per-path decision.",
+         ref="DESIGN.md §4 C18",
+         note="Trusted: Kani/CBMC, the check-time copy mechanism. Tree-level reconcile() over BTreeMaps is covered only where the evidence lists E1 obligations for it (bounded path universe); the Lean model is not used.",
+         technique="Kani/CBMC bounded model checking (SAT) of the real function over its full input domain"),
+    dict(pid="C20", level="proof", engine="kani",
+         text="FrameHeader::{decode,encode,validate,new} and MessageType::from_u8 are decided by Kani/CBMC over all 2^96 header buffers and all valid header values: decode accepts exactly COPA/version 1/type 1..7/length <= 16 MiB, returns the little-endian length, re-encodes to the same bytes, and encode/decode is the identity. Frame-header level only.",
+         ref="DESIGN.md §4 C20",
+         note="NOT covered (stated): bincode payload round trips of Message/Signature/Delta, Message::decode on arbitrary bytes, Codec::read_message allocation bound, and the CLI file readers — Kani does not finish on serde/bincode/tokio code. std::fmt::format is stubbed to String::new().",
+         technique="Kani/CBMC (SAT) over the full 96-bit input space, fmt stubbed"),
+    dict(pid="C05", level="model_checking", engine="kani",
+         text="CopiaSync::patch with Delta::validate is model-checked by Kani/CBMC on a 3-byte symbolic basis and deltas whose every header field, copy offset, copy length (<=4) and literal byte is symbolic, for op-list shapes up to [copy, literal, copy]: no panic, success implies the output is exactly what the ops describe, that no copy reads outside the basis, and (verification on) that it hashes to delta.checksum.",
+         ref="DESIGN.md §4 C05",
+         note="Bounded (shapes, 3-byte basis, len <= 4). BLAKE3 is replaced by an injective padding hash (collision-free idealisation). AsyncCopiaSync::patch and the `copia patch` process are not covered unless the evidence lists them. Counterexamples are decoded from Kani's concrete playback and replayed natively in dev and release.",
+         technique="Kani/CBMC bounded model checking of the real patch code; native replay of counterexamples"),
 ]
 
 
